@@ -77,7 +77,7 @@ fn main() {
     let (prop, tiername) = match args[1].as_str() {
         "run" => {
             let prop = args[2].clone();
-            let ctx = Ctx { prop: prop.clone(), tier, seed, threads, profile: profile.clone(), shard };
+            let ctx = Ctx { prop: prop.clone(), tier, seed, threads, profile: profile.clone(), shard, light: false };
             if !props::run(&ctx, &mut st) {
                 eprintln!("unknown property {}", prop);
                 std::process::exit(64);
